@@ -105,8 +105,6 @@ def _ops(case):
 TRIGGERS = {
     # non-termination in programs that combine a diagonal with an inflation / take (over-approximation, DESIGN.md section 7)
     'inflate-diagonalize-interplay': lambda case, v: genexpr.known_loop_inflate_diag(case),
-    # non-termination on zero-size arrays: unravel of a diagonalised axis under a takediag of a ravel
-    'zero-size-diagonalize-unravel-takediag': lambda case, v: genexpr.known_loop_zero_size_diag_unravel(case),
 }
 
 MANIFEST = dict(
